@@ -101,7 +101,7 @@ class Analysis:
         """events that make every obligation of the function undecided"""
         if S.crashed:
             return [f'analysis error: {S.crashed}']
-        return [f'{e.text} (line {e.lineno})' for e in S.events if e.kind == 'unknown' and e.how == 'construct']
+        return [f'{e.text} (line {e.lineno})' for e in S.events if e.kind == 'unknown' and e.how in ('construct', 'name', 'type')]
 
     # ---- C09
     def _c09(self, fi, ct, case, S):
